@@ -41,6 +41,8 @@ EXPLANATION = (
 NONTRIVIAL_RULE = "processed at least two events, one of them sent from inside an action or by a second producer"
 BOUNDS = {
     "reentrant": "machine RM; 6 symbolic send-position bits (entry during start, exit, two transition-action positions, choose branch, always action); external script = one event + a send_events batch of n in [0,4] + one event; maxIterations default; both engines",
+    "start_raise": "an entry action on the root / the compound initial state / its compound child raises an event during start() through the built-in raise, raise with delay 0 or a user action calling send(): the event is handled only after the whole initial entry has completed; start() returns with a legal configuration; both engines",
+    "batch_fault": "send_events() batch of 1-4 events with one faulty event (unresolvable target / unimplemented action / raising user action) at a symbolic position, followed by two ordinary sends: every other event is processed exactly once, in order, nothing stays queued; both engines",
     "volume": "machine VM (TICK -> count + r raised events); n in {3, 40, 1100, 2100} external events, r in {0,1,2}, event submitted as str / one dict object re-used / fresh dicts / one Event object re-used; one by one or send_events (sync) / two interleaved producers (async); every accepted event processed exactly once, no deadlock (virtual-time 30 s guard), payload intact, caller's dict untouched. Runs natively on the solver-chosen magnitudes (loops of thousands of sends are not traced)",
     "producers": "machine RM; two producers with two events each at symbolic instants in [0,30] ms, after-timer d in [1,30] ms, slow action a in [0,20] ms; both engines (sync: producers are the caller at two instants, timers run on virtual threads)",
 }
@@ -481,7 +483,166 @@ def volume(eng: int, mag: int, raises: int, form: int, batch: bool) -> bool:
     return verdict(why is None)
 
 
-OBLIGATIONS = {"reentrant": reentrant, "producers": producers, "volume": volume}
+# ---------------------------------------------------------------------------
+# start_raise / batch_fault
+# ---------------------------------------------------------------------------
+
+def start_raise(eng: int, how: int, depth: int) -> bool:
+    """
+    pre: 0 <= eng <= 1
+    pre: gate('start_raise', eng=eng, how=how, depth=depth)
+    post: _
+    """
+    from xstate_statemachine import Interpreter, SyncInterpreter, actions as A, create_machine
+
+    eng = pick(eng, 2)
+    h = pick(how, 3)       # who raises: built-in raise / built-in sendTo(self is not addressable: raise with delay 0) / a user action calling send()
+    d = pick(depth, 3)     # the raising entry action sits on the root / on the compound initial state / on its compound child
+    key = f"SR{eng}{h}{d}"
+    log: List[Any] = []
+    m = _M.get(key)
+    if m is None:
+        env.install()
+
+        def mark(name: str) -> Any:
+            def f(i: Any, c: Any, e: Any, a: Any) -> None:
+                CTL["srlog"].append(name)
+            return f
+
+        if eng == 0:
+            def user_send(i: Any, c: Any, e: Any, a: Any) -> None:
+                CTL["srlog"].append("raise")
+                i.send("READY")
+        else:
+            async def user_send(i: Any, c: Any, e: Any, a: Any) -> None:  # type: ignore[misc]
+                CTL["srlog"].append("raise")
+                await i.send("READY")
+        raiser: Any = [A.raise_("READY"), {"type": "xstate.raise", "params": {"event": "READY", "delay": 0}}, "userSend"][h]
+        entries = {0: [], 1: [], 2: []}
+        entries[d] = [raiser]
+        cfg = {
+            "id": "m", "initial": "boot", "entry": ["root.en"] + entries[0],
+            "on": {"READY": {"target": ".idle", "actions": ["ready"]}},
+            "states": {
+                "boot": {"initial": "s1", "entry": ["boot.en"] + entries[1],
+                         "states": {"s1": {"initial": "t1", "entry": ["s1.en"] + entries[2], "states": {"t1": {"entry": ["t1.en"]}}}}},
+                "idle": {"entry": ["idle.en"]},
+            },
+        }
+        acts = {n: mark(n) for n in ("root.en", "boot.en", "s1.en", "t1.en", "idle.en", "ready")}
+        acts["userSend"] = user_send
+        m = create_machine(cfg, logic=make_logic(actions=acts))
+        env.pin_hashes(m)
+        _M[key] = m
+    CTL["srlog"] = log
+    if eng == 0:
+        vthread.SCHED.reset(0.0)
+        it = SyncInterpreter(m)
+        it.start()
+        cfg_after = sorted(n.id for n in it._active_state_nodes)
+        it.stop()
+    else:
+        it2 = Interpreter(m)
+        box: Dict[str, Any] = {}
+
+        async def go() -> None:
+            await it2.start()
+            box["at_return"] = sorted(n.id for n in it2._active_state_nodes)
+            await it2._event_queue.join()
+            box["cfg"] = sorted(n.id for n in it2._active_state_nodes)
+            await it2.stop()
+
+        common.drive(go())
+        cfg_after = box["cfg"]
+        r = model.legal_reason([n for n in it2.machine.states.values() if False] or [], it2.machine) if False else None
+        leaves_at_return = [x for x in box["at_return"] if x.count(".") >= 1 and not any(y.startswith(x + ".") for y in box["at_return"])]
+        if len(leaves_at_return) != 1:
+            _note(f"async how={h} depth={d}: start() returned with the configuration {box['at_return']} (leaves {leaves_at_return})")
+            return verdict(False)
+    why = None
+    names = [x for x in log if x != "raise"]
+    want = ["root.en", "boot.en", "s1.en", "t1.en", "ready", "idle.en"]
+    if names != want:
+        why = f"order of entry actions and the raised event's handling: {names}, expected {want} (the raised event is handled after the initial entry has completed)"
+    elif cfg_after != ["m", "m.idle"]:
+        why = f"configuration after start() and the raised event: {cfg_after}"
+    if why:
+        _note(f"{'sync' if eng == 0 else 'async'} raiser={['raise', 'raise(delay 0)', 'user action send()'][h]} on level {d}: {why}")
+    return verdict(why is None)
+
+
+def batch_fault(eng: int, pos: int, n: int, kind: int) -> bool:
+    """
+    pre: 0 <= eng <= 1
+    pre: gate('batch_fault', eng=eng, pos=pos, n=n, kind=kind)
+    post: _
+    """
+    from xstate_statemachine import Interpreter, SyncInterpreter, create_machine
+    from xstate_statemachine.exceptions import XStateMachineError
+
+    eng = pick(eng, 2)
+    nn = 1 + pick(n, 4)
+    p = pick(pos, nn)
+    k = pick(kind, 3)         # BAD = unresolvable target / unimplemented action / raising guard-less user action (contained)
+    m = _M.get("BF")
+    if m is None:
+        env.install()
+
+        def add(i: Any, c: Any, e: Any, a: Any) -> None:
+            CTL["bf"].append(e.payload.get("k"))
+
+        def boom(i: Any, c: Any, e: Any, a: Any) -> None:
+            raise RuntimeError("user action fault")
+
+        cfg = {"id": "m", "initial": "a",
+               "states": {"a": {"on": {"ADD": {"actions": ["add"]}, "BAD0": {"target": "nowhere.at.all"},
+                                       "BAD1": {"actions": ["zz_missing"]}, "BAD2": {"actions": ["boom"]}}}}}
+        m = create_machine(cfg, logic=make_logic(actions={"add": add, "boom": boom}))
+        env.pin_hashes(m)
+        _M["BF"] = m
+    CTL["bf"] = []
+    evs: List[Any] = [{"type": "ADD", "k": i} for i in range(nn)]
+    evs.insert(p, f"BAD{k}")
+    if eng == 0:
+        vthread.SCHED.reset(0.0)
+        it = SyncInterpreter(m)
+        it.start()
+        try:
+            it.send_events(evs)
+        except XStateMachineError:
+            pass
+        it.send({"type": "ADD", "k": 100})
+        it.send({"type": "ADD", "k": 101})
+        left = len(it._event_queue)
+        it.stop()
+    else:
+        it2 = Interpreter(m)
+        box: Dict[str, Any] = {}
+
+        async def go() -> None:
+            await it2.start()
+            await it2.send_events(evs)
+            await it2.send({"type": "ADD", "k": 100})
+            await it2.send({"type": "ADD", "k": 101})
+            import asyncio
+
+            try:
+                await asyncio.wait_for(it2._event_queue.join(), timeout=5.0)
+            except asyncio.TimeoutError:
+                pass
+            box["left"] = it2._event_queue.qsize()
+            await it2.stop()
+
+        common.drive(go())
+        left = box["left"]
+    want = list(range(nn)) + [100, 101]
+    ok = CTL["bf"] == want and left == 0
+    if not ok:
+        _note(f"{'sync' if eng == 0 else 'async'} batch {evs} (fault kind {k} at position {p}) then two more sends: processed {CTL['bf']}, expected {want}; still queued: {left}")
+    return verdict(ok)
+
+
+OBLIGATIONS = {"reentrant": reentrant, "producers": producers, "volume": volume, "start_raise": start_raise, "batch_fault": batch_fault}
 PROBES = {"reentrant": [{"b0": True, "b2": True, "n": 3}, {"eng": 1, "b1": True, "b3": True, "b5": True, "n": 2}],
           "producers": [{"t1": 5, "t2": 5, "d": 5, "a": 10, "slow_first": True}, {"eng": 1, "t1": 3, "t2": 4, "d": 4, "a": 10, "slow_first": True}]}
 
@@ -497,4 +658,6 @@ def items(tier: str, seed: int) -> List[Dict[str, Any]]:
             out.append({"ob": "producers", "params": {"eng": eng, "slow_first": sf}, "timeout": 400 if quick else 1500, "path_timeout": 40,
                         "label": f"producers[{e},slow_first={sf}]"})
         out.append({"ob": "volume", "params": {"eng": eng}, "timeout": 600, "label": f"volume[{e}]"})
+    out.append({"ob": "start_raise", "params": {}, "timeout": 300, "label": "start_raise"})
+    out.append({"ob": "batch_fault", "params": {}, "timeout": 300, "label": "batch_fault"})
     return out
